@@ -141,6 +141,9 @@ func runC04(o Opts) error {
 	thorough := o.Tier == "thorough"
 	renderOn = true
 	defer func() { renderOn = false }()
+	debugClients = true
+	restore := discardStdout()
+	defer func() { debugClients = false; restore() }()
 
 	names := make([]string, 0, len(msgTypes))
 	for n := range msgTypes {
